@@ -268,38 +268,52 @@ def model_bin(name):
 # ---------------------------------------------------------------------------------------------
 # running cases
 
-def run_lines(binary, lines, timeout=900, shards=NPROC, wrap_ulimit=False):
+def run_lines(binary, lines, timeout=120, shards=NPROC, wrap_ulimit=False):
     """Feed lines to `binary` (one result per line), sharded over processes.  Returns list of
     result lines aligned with input; a shard that dies yields 'CRASH(<rc>)' for its unanswered lines."""
     if not lines:
         return []
     shards = max(1, min(shards, (len(lines) + 199) // 200))
     chunks = [lines[i::shards] for i in range(shards)]
-    procs = []
-    for ch in chunks:
+    import threading
+    results = [None] * shards
+
+    def run_chunk(lines_):
+        """run one process over lines_; returns (answers, returncode, stderr_tail, timed_out)"""
         cmd = [binary]
         if wrap_ulimit:
             cmd = ['bash', '-c', 'ulimit -s unlimited 2>/dev/null; exec "$0"', binary]
         p = subprocess.Popen(cmd, stdin=subprocess.PIPE, stdout=subprocess.PIPE, stderr=subprocess.PIPE, env=ENV)
-        procs.append(p)
-    import threading
-    results = [None] * shards
-
-    def feed(i):
-        p = procs[i]
+        timed_out = False
         try:
-            o, e = p.communicate(('\n'.join(chunks[i]) + '\n').encode(), timeout=timeout)
+            o, e = p.communicate(('\n'.join(lines_) + '\n').encode(), timeout=timeout)
         except subprocess.TimeoutExpired:
             p.kill()
             o, e = p.communicate()
-            e = (e or b'') + b'\nTIMEOUT'
+            timed_out = True
         outl = o.decode('utf-8', 'replace').split('\n')
         if outl and outl[-1] == '':
             outl.pop()
-        rc = p.returncode
-        while len(outl) < len(chunks[i]):
-            outl.append('(CRASH %s %s)' % (rc, sexp.dumps((e or b'')[-200:])))
-        results[i] = outl[:len(chunks[i])]
+        return outl[:len(lines_)], p.returncode, (e or b'')[-200:], timed_out
+
+    def feed(i):
+        # A crash, abort or hang of the implementation on one case must be pinned on THAT case: the first
+        # unanswered line is the culprit; the rest of the chunk is re-run in a fresh process.
+        todo = chunks[i]
+        answers = []
+        crashes = 0
+        while todo:
+            outl, rc, err, timed_out = run_chunk(todo)
+            answers.extend(outl)
+            if len(outl) >= len(todo):
+                break
+            answers.append('(CRASH %s %s)' % ('timeout' if timed_out else rc, sexp.dumps(err)))
+            crashes += 1
+            todo = todo[len(outl) + 1:]
+            if crashes >= 4:
+                answers.extend(['(NOT-RUN)'] * len(todo))
+                break
+        results[i] = answers
 
     ths = [threading.Thread(target=feed, args=(i,)) for i in range(shards)]
     for t in ths:
@@ -507,6 +521,9 @@ def check_property(pid, tier, seed):
 
     for fid, n in sorted(res.known.items()):
         print('KNOWN-FINDING: property=%s %s (%s; %d cases this run)' % (pid, fid, kf[fid]['what'], n))
+    for fid, f in sorted(kf.items()):
+        if f.get('static') and fid not in res.known:
+            print('KNOWN-FINDING: property=%s %s (%s; not executed by the check)' % (pid, fid, f['what']))
     seen = set()
     for why, path, found in res.violations:
         if path in seen:
@@ -592,10 +609,14 @@ class RunCtx:
         else:
             impl = run_lines(harness_bin(hb), cases)
             impl_rel = run_lines(harness_bin(hb, release=True), cases) if release else None
-            model = run_lines(model_bin(prop.MODEL), cases, wrap_ulimit=True) if (self.model_ok and getattr(prop, 'MODEL', None)) else None
+            model = run_lines(model_bin(prop.MODEL), cases, timeout=3600, wrap_ulimit=True) if (self.model_ok and getattr(prop, 'MODEL', None)) else None
         self.evaluations += len(cases)
         for i, c in enumerate(cases):
             io = impl[i]
+            if io == '(NOT-RUN)':
+                self.stats.setdefault('_not_run_after_crashes', 0)
+                self.stats['_not_run_after_crashes'] += 1
+                continue
             if len(self.samples) < 8 and (i % max(1, len(cases) // 3) == 0):
                 self.samples.append({'generator': name, 'case': c[:400], 'impl': io[:400]})
             if hasattr(prop, 'nontrivial'):
